@@ -1303,8 +1303,6 @@ class HState:
     def compare_mh(self):
         """What an MH tool sees: stdlib mailbox.MH on the folder."""
         for name, mb in self.model.mboxes.items():
-            if mb.noselect:
-                continue
             folder = "inbox" if name == "INBOX" else name
             path = self.w.folder_path(folder)
             if not os.path.isdir(path):
@@ -1316,10 +1314,32 @@ class HState:
             except Exception as e:
                 self.fail("C13.mh-sequences-unreadable", {"exc": type(e).__name__}, None, repr(e))
                 continue
-            stale = sorted({k for v in seqs.values() for k in v} - set(keys))
+            # (a deleted mailbox kept as a \\Noselect placeholder is still a folder an MH agent can deliver into: the messages
+            # DELETE removed must be gone from its .mh_sequences too)
+            # (stdlib MH.get_sequences() silently drops the keys that have no file -- the very thing to be checked -- so the file is
+            # read as an MH tool that trusts it would: `name: 1-3 7`)
+            raw_seqs = {}
+            try:
+                with open(os.path.join(path, ".mh_sequences")) as fh:
+                    for ln in fh:
+                        if ":" not in ln:
+                            continue
+                        nm_, _, spec = ln.partition(":")
+                        mem = set()
+                        for part in spec.split():
+                            a, _, b = part.partition("-")
+                            if a.isdigit() and (not b or b.isdigit()):
+                                mem.update(range(int(a), int(b or a) + 1))
+                        raw_seqs[nm_.strip()] = mem
+            except FileNotFoundError:
+                pass
+            stale = sorted({k for v in raw_seqs.values() for k in v} - set(keys))
             if stale:
-                self.fail("C13.mh-sequences-mention-removed", {"seqs": sorted(s for s, v in seqs.items() if set(v) - set(keys))},
+                seqs = {k: sorted(v) for k, v in raw_seqs.items()}
+                self.fail("C13.mh-sequences-mention-removed", {"seqs": sorted(s for s, v in seqs.items() if set(v) - set(keys)), "placeholder": bool(mb.noselect)},
                           [], stale)
+            if mb.noselect:
+                continue
             cids = {}
             for k in keys:
                 with open(os.path.join(path, str(k)), "rb") as f:
